@@ -30,8 +30,7 @@ PROPS = {
         "level_note": "Trusted: CBMC 6.11 + DFCC; ghost lock model; documented lock contracts as extracted from /repo's headers. NOT covered: happens-before races on unguarded volatile flags (bidib_running, bidib_discard_rx, bidib_seq_num_enabled, bidib_lowlevel_debug_mode), schedule exploration, atomicity of multi-step read-modify-write sequences beyond 'the documented lock is held', direct accesses to guarded globals that do not go through an accessor function.",
         "assumptions": E2_ASSUME + ["init-phase functions (reachable only from bidib_state_init, before any thread is created) are exempt from requires-held obligations; listed per unit"],
         "trusted_base": COMMON_TB,
-        "not_covered": ["data races on variables without a documented guard", "interleaving semantics / schedule exploration", "torn reads inside a critical section of the wrong mode (read lock used where an update needs exclusion)",
-                        "direct uses of bidib_boards / bidib_trains / bidib_track_state.* that bypass accessor functions"],
+        "not_covered": ["data races on variables without a documented guard (bidib_running, bidib_discard_rx, pkt_max_cap, debug flag: volatile flags)", "interleaving semantics / schedule exploration", "write-under-read-lock on members reached through pointers (board->connected ...): the access instrumentation sees the global's name only; mode is checked for the one listed atomic section", "members of bidib_initial_values (written only in the single-threaded init phase)"],
         "explanation": "generated lock-discipline units (engine E2) restricted to the requires-held obligations, see DESIGN.md §5 C10",
     },
     "C18": {
@@ -55,7 +54,7 @@ PROPS = {
                         "the user's write callback does not touch library state", "pkt_max_cap is not lowered between the filling of the buffer and its flush (capacity 'in force when it was filled' is modelled as the current capacity)",
                         "volatile statics of send.c are read as ordinary memory (sound under the mutex, whose discipline is C11)"],
         "trusted_base": ["memcpy contract stub in units/C01/add_to_buffer.c", "callee contracts in units/C01/encoders.c (try_send, add_to_buffer, seqnum, extract_address): each proved in its own unit except where listed under assumed contracts"],
-        "not_covered": ["byte-exact content of the escaped stream and the CRC value (functional flush proof not discharged in this version)", "true concurrency semantics beyond lock discipline", "auto-flush timing"],
+        "not_covered": ["byte-exact stream for buffers above 6 bytes (C01.flush_bytes is a bounded stand-in; framing, safety and length accounting are proved for all 256 bytes)", "true concurrency semantics beyond lock discipline", "auto-flush timing"],
         "explanation": "DESIGN.md §5 C01",
     },
     "C03": {
@@ -106,7 +105,7 @@ PROPS = {
         "assumptions": ["accessory execution-state bytes with bit 7 set other than 0x80 may go to either state tracking or the error queue (the documents do not decide)", "syslog compiled out", "malloc never fails",
                         "file-scope `static` dropped in the dispatcher TU so that file-local helpers can be replaced by contract stubs"],
         "trusted_base": ["units/C06/dispatch.c spec_dest()", "units/C06/dispatch_stubs.c", "stubs/vp_glib.h"],
-        "not_covered": ["messages shorter than their type requires (that is C12, known finding D12)", "what the state setters do with the arguments (C07)"],
+        "not_covered": ["messages shorter than their type requires are C12 (dispatch_short unit)", "what the state setters do with the arguments (C07)", "FIFO order inside GLib's queue (its contract)"],
         "explanation": "DESIGN.md §5 C06",
     },
     "C19": {
@@ -116,7 +115,7 @@ PROPS = {
         "level_note": "NOT covered: that the parser sets secack_on exactly for feature 0x03 with value > 0 (board parser not under contract); interaction with an exhausted response budget or a stalled node (the mirror goes through bidib_node_try_send like any message; mirrors have response size 0 but still queue behind deferred messages).",
         "assumptions": ["syslog compiled out", "the board lookup is replaced by 'unknown board, or a board with an arbitrary SecAck flag'"],
         "trusted_base": ["units/C06/dispatch_stubs.c", "units/C18/gen.py oracle rows of the mirror encoders"],
-        "not_covered": ["secack_on <=> feature 0x03 > 0 (config parser)", "mirror delayed by budget/stall"],
+        "not_covered": ["boards with more than 2 listed features in the parser unit (bounded)", "mirror delayed by budget/stall"],
         "explanation": "DESIGN.md §5 C19",
     },
     "C12": {
@@ -126,7 +125,7 @@ PROPS = {
         "level_note": "Trusted: CBMC 6.11 + DFCC; contract stubs of the dispatcher's callees. NOT covered: the bodies of the state setters (list walks in bm_address, boost_diagnostic, vendor; code->string tables used only inside logging calls, which are compiled out), liveness of the polling loops.",
         "assumptions": ["syslog compiled out: reads that occur only inside a logging argument are not checked", "malloc never fails", "polling for input has no effect on state"],
         "trusted_base": ["units/C06/dispatch_stubs.c", "reference decoder of units/C02/receive_packet.c"],
-        "not_covered": ["state setter bodies (memory safety of list walks with wire-supplied lengths)", "bidib_node_state_update table index", "split_packet beyond 12-byte packets (bounded)"],
+        "not_covered": ["setter bodies beyond the stated list/byte bounds of their units", "split_packet beyond 12-byte packets (bounded)", "reads that occur only inside logging arguments in units that compile logging out"],
         "explanation": "DESIGN.md §5 C12",
     },
     "C07": {
@@ -136,7 +135,7 @@ PROPS = {
         "level_note": "NOT under contract in this version: the other 19 setters (booster state/diagnostics, command-station state, accessory/peripheral/reverser state, drive and accessory acknowledgements, confidence, address lists, speed, dynamic state), bidib_state_reset, the getters (C17), and the induction over message histories (each handler frames everything else => the state is the fold: on paper). A change in an uncovered setter is not detected.",
         "assumptions": ["lookup helpers are replaced by 'NULL or an arbitrary valid element' (their own search loops are not under contract)", "syslog compiled out", "bool members hold 0 or 1"],
         "trusted_base": ["BiDiB occupancy-message table transcribed in units/C07/bm_current.c"],
-        "not_covered": ["19 of 21 state setters", "bidib_state_reset initial values", "fold over histories (paper induction)", "lookup helper loops"],
+        "not_covered": ["bidib_state_reset initial values", "fold over histories is the induction over the per-message contracts (on paper)", "bidib_state_node_new/lost are C15", "lookups other than the six proved in C15.lookup_* remain assumed contracts ('NULL or an element')"],
         "explanation": "DESIGN.md §5 C07",
     },
     "C08": {
@@ -146,7 +145,7 @@ PROPS = {
         "level_note": "Level 'other': all deciding units are bounded stand-ins (nested GArray structures). NOT covered: bidib_get_train_position_intern (which segments list the address), bidib_state_bm_multiple, bidib_state_bm_address, concurrent getters (lock clauses are C10/C11).",
         "assumptions": ["bidib_get_train_position_intern is replaced by an arbitrary result per train (its own contract is not proved)", "GArray concrete model of stubs/vp_glib.h", "bool members hold 0 or 1"],
         "trusted_base": ["stubs/vp_glib.h"],
-        "not_covered": ["position query itself", "bm_multiple / bm_address", "more than 3 trains / 3 addresses"],
+        "not_covered": ["more than 3 trains / 2 segments x 2 addresses (bounds of the stand-ins)", "getters racing the receiver (lock discipline is C10/C11)"],
         "explanation": "bounded stand-ins only: each CBMC obligation of a bounded unit counted once; DESIGN.md §5 C08",
     },
     "C09": {
@@ -156,7 +155,7 @@ PROPS = {
         "level_note": "NOT under contract: bidib_switch_point, bidib_set_signal, bidib_set_peripheral (nested board/mapping/aspect arrays), booster/track-output commands, reverser request, emergency stop, calibrated speed, the optimistic state update (bidib_state_cs_drive / cs_accessory). For those only the lock discipline (C10/C11) is proved.",
         "assumptions": ["lookups replaced by 'NULL or an arbitrary valid element'", "bidib_send_cs_drive_intern replaced by a recording contract (its encoding is C18)", "bool members hold 0 or 1", "syslog compiled out"],
         "trusted_base": ["units/C09/train_speed.c stubs"],
-        "not_covered": ["accessory / signal / peripheral commands", "optimistic state update", "'nothing submitted on error' for the uncovered commands"],
+        "not_covered": ["bidib_emergency_stop_train, bidib_set_calibrated_train_speed, bidib_request_reverser_state", "configurations above the stated bounds (2 boards, 2 aspects, 2 port values)", "set_train_peripheral only in the thorough tier (3000 s unit)"],
         "explanation": "DESIGN.md §5 C09",
     },
     "C13": {
@@ -166,7 +165,7 @@ PROPS = {
         "level_note": "NOT decided by contracts here: memory safety of the ~2000 lines of YAML event state machines and of the cleanup of partial records (bidib_state_free_single_*), 'returns 0 or 1', release of memory, restartability (see C16). Those parts of the statement are not claimed; a crash in a parser error branch is not detected by this check.",
         "assumptions": E2_ASSUME,
         "trusted_base": COMMON_TB,
-        "not_covered": ["memory safety of the parsers on malformed event sequences", "cleanup of partial records", "termination", "heap release"],
+        "not_covered": ["YAML text -> event stream (libyaml itself; its event API is an assumed contract)", "event streams longer than the stated bounds, scalar values outside the unit's pool", "heap release of rejected configurations beyond 'every free is of a live heap object' (no leak accounting)", "termination (libyaml streams are finite)"],
         "explanation": "engine E2 restricted to the start path, DESIGN.md §5 C13",
     },
     "C15": {
@@ -186,7 +185,7 @@ PROPS = {
         "level_note": "NOT under contract in this version: the other ~40 getters (id lists, train state, features, aspects ...), the snapshot helpers for accessories / peripherals / reversers / trains / track outputs, bidib_free_track_state; 'stays unchanged when the state later changes' is shown only as 'points into fresh allocations'. String CONTENT equality is not checked (strdup is a contract: fresh object made from the given source).",
         "assumptions": ["lookup helpers replaced by 'NULL or an arbitrary valid element'", "strdup / memcpy replaced by contracts (fresh object, source recorded, watched byte copied)", "bool members hold 0 or 1", "malloc never fails"],
         "trusted_base": ["units/C17/getters.c, snapshot.c stubs"],
-        "not_covered": ["about 40 further getters and 5 snapshot helpers", "bidib_free_track_state", "string contents"],
+        "not_covered": ["id-list getters are covered under C14.enum_*; remaining single-value getters (e.g. bidib_get_train_*), bidib_free_track_state", "string contents beyond the recorded source of each copy"],
         "explanation": "DESIGN.md §5 C17",
     },
     "C14": {
@@ -196,7 +195,7 @@ PROPS = {
         "level_note": "Level 'other': the deciding units for most clauses are bounded stand-ins. NOT covered: the YAML layer (which documents are accepted), per-record duplicate scans inside the track/train parsers (numbers, ports, aspects, CVs, calibration, speed steps, function bits), the other bidib_state_add_* functions, string->byte/uid/address conversions, the remaining enumeration getters.",
         "assumptions": ["lookups replaced by 'NULL or an arbitrary valid element'", "g_array_append_vals replaced by a counting contract in the add_* units", "strdup replaced by a contract"],
         "trusted_base": ["stubs/vp_glib.h"],
-        "not_covered": ["YAML text -> events", "record-level duplicate scans of the parsers", "value-format conversions", "initial states after acceptance"],
+        "not_covered": ["YAML text -> events", "cross-record duplicate scans inside bidib_state_add_* beyond the three proved (board, train, dcc address)", "configurations above the stated bounds"],
         "explanation": "bounded stand-ins: each CBMC obligation of a bounded unit counted once; DESIGN.md §5 C14",
     },
     "C20": {
@@ -216,7 +215,52 @@ PROPS = {
         "level_note": "NOT covered: that bidib_state_reset_train_params / bidib_set_track_output_state_all really emit one message per train x connected track output (nested arrays; only their lock discipline is proved), whole-session heap leaks (bidib_state_free, queue frees: only bidib_node_state_table_reset is under contract), process-lifetime globals restored to their initial values (packet capacity, sequence enable, action id), OS-level thread clean-up.",
         "assumptions": ["pthread_create never fails and yields a fresh non-zero handle (ghost ledger)", "callees of stop/start replaced by event-recording contracts", "GLib models"],
         "trusted_base": ["units/C16/lifecycle.c ghost thread ledger"],
-        "not_covered": ["message content of the shutdown traffic", "heap release of state and queues", "globals restored for the next session"],
+        "not_covered": ["heap release of state and queues", "globals other than those the units read back (thread handles, running flag, node table, segment lookup) restored for the next session"],
         "explanation": "DESIGN.md §5 C16",
     },
 }
+
+
+# ---- texts refreshed after the build phase (override the planning-time wording above) -------------------------------
+PROPS["C01"].update({
+    "level_text": "PROVED for every buffer content and fill level 0..256, every message and capacity: CRC table == polynomial spec for all 65536 (crc, byte) pairs; bidib_add_to_buffer keeps the buffer invariant and the capacity rule and appends the message bytes at the fill point; bidib_flush_impl emits delimiter + payload + escapes + CRC(1|2) + delimiter with exact length accounting, never overruns the staging buffer, empties the buffer; both encoders lay out length/address/0/seq/type/data exactly, hand the message over at most once after admission. BOUNDED: byte-exact stream content (escape of payload and of the CRC byte, CRC value) for buffers of at most 6 bytes; bounded fall-backs of the encoders run only when their loop contracts no longer match the source.",
+    "level_note": "A DFCC loop-contract proof of the byte-exact version for all 256 bytes did not finish in 900 s; the bounded unit uses the real CRC table.",
+})
+PROPS["C03"].update({
+    "level_text": "PROVED (all inputs): admit-or-defer rule of bidib_node_try_send with the node invariant (outstanding bytes <= 48, counter == sum of the response queue). BOUNDED: bidib_node_try_queued_messages (<= 4 releases), bidib_node_state_update (<= 3 outstanding requests: an answer is attributed to the oldest request that accepts it - also when that request is past its expiry, finding D25 -, expired requests are dropped, the deferred queue is retried after every budget release).",
+})
+PROPS["C07"].update({
+    "technique": "contract-based deductive verification (CBMC): one unit per state setter against a postcondition over the whole touched entity plus frame clauses ('unknown address changes nothing', 'nothing else changes'); lookups replaced by contracts that are themselves proved in C15.lookup_*",
+    "level_text": "Every setter reachable from the dispatcher has a unit: PROVED (loop-free, all wire values): bm_current, boost_state, cs_state, cs_drive_ack, cs_accessory_ack, cs_accessory, cs_accessory_manual, lc_wait, bm_speed, bm_dyn_state, cs_drive (all 32 function bits x 5 groups), speed conversions. BOUNDED (lists of stated size): accessory_state, lc_stat (<= 2 aspects), bm_occ, bm_address (<= 3 reported, <= 2 listed), bm_multiple (<= 12 bits, watched segment), bm_confidence (<= 2 segments), boost_diagnostic, vendor; lookups by node address / number / DCC address (<= 3 boards / trains).",
+    "level_note": "The statement's 'fold of all messages' is the induction over these per-message contracts; the induction step itself is on paper. Assumed configuration invariants are listed per unit (e.g. an accessory has at least one aspect - the parser rejects empty lists, proved in C13.parse_*).",
+})
+PROPS["C08"].update({
+    "level_text": "BOUNDED stand-ins only: bidib_state_update_train_available (3 trains: on_track <=> position query non-empty, orientation the reported one), bidib_get_train_position_intern (2 segments x <= 2 addresses: exactly the segments listing the address, whatever their occupancy flag), bm_occ / bm_multiple / bm_address (free segment lists nothing; availability recomputed once, after the segment data is final), lookups by DCC address and by detector number.",
+})
+PROPS["C09"].update({
+    "level_text": "PROVED (loop-free): speed encoding both ways, bidib_set_train_speed_internal (every int speed, direction kept at 0), bidib_set_track_output_state, bidib_set_booster_power_state: return 0 and exactly the one configured message to the board's current address iff known, connected, right class and value in range; else 1 and nothing sent. BOUNDED: bidib_switch_point, bidib_set_signal, bidib_set_peripheral over a configuration of 2 boards x (board accessory + DCC accessory | peripheral) x 2 aspects x 2 port values with arbitrary content (message count, address, number/port/DCC address, aspect value, port/value/extended bits, optimistic DCC state); bidib_set_track_output_state_all (3 boards); bidib_state_cs_drive (function bits of active groups, others preserved); bidib_set_train_peripheral (thorough tier only).",
+})
+PROPS["C10"].update({
+    "technique": "contract-based deductive verification (CBMC/DFCC): generated lock-discipline unit per function - requires-held contracts at every call site, an access obligation at every textual use of guarded data (mechanically instrumented copy of each source file), atomic read-modify-write sections, lock order and balance",
+    "level_text": "For every function of the library (274 units, loop contracts on every loop, all arguments, all paths): (1) every call of an accessor documented 'Shall only be called with <lock> acquired' happens with that lock held; (2) every textual access to guarded data - the members of bidib_track_state (guards read from the '// guarded by' comments), bidib_boards, bidib_trains, the send buffers, the node-state table, the action-id counter, and (unit C06.queue_guard) the three uplink queues - happens with its lock held, or inside the single-threaded init/teardown phase; preconditions of undocumented helpers are inferred and become obligations at their call sites up to the public API; (3) the read-modify-write of a train's function group in bidib_set_train_peripheral stays inside one exclusive section of bidib_trains_rwlock; (4) the C11 obligations (order, balance), without which concurrent calls block forever.",
+    "level_note": "This is the lockset discipline that makes the sequential contracts of the other properties valid under threads; it is not a schedule exploration. One waiver (contracts/locks.json immutable_part_reads): bidib_state_set_initial_values reads only the length of bidib_track_state.track_outputs and the id of its elements, both written only in the single-threaded phases - the waiver is void as soon as the function reads another element field.",
+    "explanation": "engine E2 (all obligation classes), DESIGN.md 0.2 / §5 C10",
+})
+PROPS["C13"].update({
+    "technique": "contract-based deductive verification (CBMC): (a) lock balance/order of every function on the start path (engine E2); (b) every YAML section parser against a model of the libyaml event API: pointer safety, event ledger, record invariants; (c) resource ledger of the three config-file functions; (d) start/stop sessions unit",
+    "level_text": "PROVED: locks released on every path of the start/configuration code (38 E2 units); a file that was opened is closed once and a parser that was initialised is deleted once, neither is touched otherwise (3 units); a failed start leaves the library stopped (sessions unit). BOUNDED: each of the 14 parser functions (aspect, dcc aspect + port, board/dcc accessory, peripheral, segment, reverser, board setup, board, train + calibration + function, scalar_then_section) for every event stream up to the stated length (any event type at any point, parse failure at any point, scalar values from a pool): no invalid pointer is dereferenced, no double free / free of a non-heap pointer, every parsed event is deleted exactly once, list elements left behind satisfy the precondition of bidib_state_free_single_board (itself a unit).",
+    "level_note": "NOT decided: libyaml itself (text -> events), leak freedom (no ownership accounting beyond 'every free is valid'), termination. Seven crash sites on malformed configurations were found by these units and repaired (finding family D26).",
+    "explanation": "DESIGN.md 0.2 / §5 C13",
+})
+PROPS["C14"].update({
+    "level_text": "PROVED: bidib_state_uids_equal (all 7 bytes). BOUNDED: scalar conversions string -> byte / unique id / DCC address against a model of strtol (every string up to the stated length; decimal vs 0x-hex, range, malformed -> rejected, bytes in order); uniqueness checks of bidib_state_add_board / add_train / dcc_addr_in_use; enumeration getters; and the record-level clauses proved in the parser units (duplicate aspect id/value, duplicate port, initial value must name an aspect and is filed under its own kind, accessory without aspects rejected, calibration exactly 9 values <= 126, function bit <= 31 and not duplicated, board missing from the board file rejected before any section is parsed, booster / track output from the class bits).",
+})
+PROPS["C17"].update({
+    "level_text": "PROVED (loop-free, known / unknown / NULL id): 7 single-entity getters with their free functions. BOUNDED (2 entities): all 9 snapshot helpers of bidib_get_state (boosters, segments, board/DCC accessories, peripherals, reversers, track outputs, trains) and the position query: every scalar field equals the tracked one, every id / aspect id / list is an independent copy (a forgotten field is an arbitrary malloc'ed byte and fails), the tracked state is not modified.",
+})
+PROPS["C19"].update({
+    "level_text": "PROVED: for every occupancy report type and every board (known/unknown, SecAck on/off, both modes): exactly one mirror of the matching kind iff the reporting board has SecAck on, addressed to it, carrying the reported number / size / bitmap / position bytes, flushed at once; the four mirror encoders against the oracle table. BOUNDED: the board parser sets secack_on iff feature 0x03 is listed with a value > 0 at any position (<= 2 features).",
+})
+PROPS["C20"].update({
+    "level_text": "PROVED (loop-free): order of the reset dialogue in bidib_send_sys_reset (reset numbered and flushed before the tables are cleared, capacity query, features, enable, train parameters, track outputs GO, occupancy query, initial values). BOUNDED: bidib_state_set_board_features, bidib_state_set_initial_values, bidib_state_query_nodetab, bidib_set_track_output_state_all (every connected track output commanded exactly once), and in the parser units: an accessory's initial value is registered in the list of its own kind (points are commanded as points).",
+})
